@@ -81,7 +81,8 @@ AssignCases ==
 CmpOps == {"<", "<=", "==", "!=", ">", ">="}
 Inverse(op) == CASE op = "<" -> ">=" [] op = "<=" -> ">" [] op = "==" -> "!=" [] op = "!=" -> "==" [] op = ">" -> "<=" [] op = ">=" -> "<"
 Mirror(op)  == CASE op = "<" -> ">" [] op = "<=" -> ">=" [] op = "==" -> "==" [] op = "!=" -> "!=" [] op = ">" -> "<" [] op = ">=" -> "<="
-Operands == { N(0), N(1), N(2), N(10), S(<<c_a>>), S(<<D0>>), S(<<D1, D0>>), S(<<D9>>), Fld(N(1)), Fld(N(2)), Fld(N(3)), V("u"), S(<<>>) }
+NanOp == Bi("log", <<N(0 - 1)>>)         \* a NaN: every ordering comparison with it is false, so is ==, and != is true
+Operands == { N(0), N(1), N(2), N(10), S(<<c_a>>), S(<<D0>>), S(<<D1, D0>>), S(<<D9>>), Fld(N(1)), Fld(N(2)), Fld(N(3)), V("u"), S(<<>>), NanOp }
 
 TF(c) == SIf(c, <<T1(<<C_T>>)>>, <<T1(<<C_F>>)>>)
 CondSpellings(op, x, y) ==
@@ -89,7 +90,8 @@ CondSpellings(op, x, y) ==
   IN << TF(c),                                                    \* if / else: fused jump, inverted
         SPrint(<<Cnd(c, S(<<C_T>>), S(<<C_F>>))>>),                \* ?: fused jump
         SBlock(<<SExpr(Asg(V("t"), c)), TF(V("t"))>>),              \* comparison opcode + JumpFalse
-        TF(Un("!", Bin(Inverse(op), x, y))),                       \* the inverse comparison, negated
+        \* the inverse comparison, negated (not the same thing when an operand is unordered)
+        IF x = NanOp \/ y = NanOp THEN TF(Grp(c)) ELSE TF(Un("!", Bin(Inverse(op), x, y))),
         TF(Bin(Mirror(op), y, x)),                                 \* operands swapped
         TF(Bin("&&", c, N(1))), TF(Bin("||", c, N(0))),
         SIf(Un("!", c), <<T1(<<C_F>>)>>, <<T1(<<C_T>>)>>),
